@@ -274,3 +274,122 @@ def grid_graph(grid, directions, blocked, costs):
                     base = exact(costs.get(grid[nr][nc], 1))
                     out[r * cols + c].append((nr * cols + nc, Q2(0, base) if dr and dc else Q2(base, 0)))
     return rows * cols, out
+
+
+# ------------------------------------------------------------------ instances beyond the small scope
+# Polynomial and still independent of /repo (no heap, no closed set, no parent pointers).  Every distance vector
+# produced here can be passed through certify() (O(m)), so on the size ladder the verdict rests on the certificate.
+def array_dijkstra(n, out, sources, zero=0):
+    """Multi-source array Dijkstra: out[u] = list of (v, w) with exact w >= 0; O(n^2 + m) selection by linear scan.
+    Returns d with d[v] = min over sources of delta(source, v), None if unreachable."""
+    d = [INF] * n
+    for s in sources:
+        d[s] = zero
+    done = [False] * n
+    for _ in range(n):
+        u, best = -1, None
+        for i in range(n):
+            x = d[i]
+            if x is not INF and not done[i] and (best is None or x < best):
+                u, best = i, x
+        if u < 0:
+            break
+        done[u] = True
+        for v, w in out[u]:
+            c = best + w
+            x = d[v]
+            if x is INF or c < x:
+                d[v] = c
+    return d
+
+
+def bfs_levels(n, succ, sources):
+    """hop distances by level-by-level expansion (succ[u] = iterable of v)."""
+    d = [INF] * n
+    level = []
+    for s in sources:
+        if d[s] is INF:
+            d[s] = 0
+            level.append(s)
+    k = 0
+    while level:
+        k += 1
+        nxt = []
+        for u in level:
+            for v in succ[u]:
+                if d[v] is INF:
+                    d[v] = k
+                    nxt.append(v)
+        level = nxt
+    return d
+
+
+def bellman_ford_exact(n, arcs, sources, zero=0):
+    """Exact Bellman-Ford (in-place rounds, early exit).  Returns (d, neg): neg <=> a negative cycle is reachable from
+    the sources (d is then only an upper bound).  Labels are exact ints/Fractions, so no rounding at any magnitude."""
+    arcs = list(arcs)
+    d = [INF] * n
+    for s in sources:
+        d[s] = zero
+    for _ in range(n):
+        changed = False
+        for u, v, w in arcs:
+            x = d[u]
+            if x is not INF:
+                c = x + w
+                y = d[v]
+                if y is INF or c < y:
+                    d[v] = c
+                    changed = True
+        if not changed:
+            return d, False
+    return d, True  # still improving in round n: some walk with >= n arcs is shorter than every simple path
+
+
+class Distances:
+    """All-pairs-on-demand exact distances of one arc set: array Dijkstra when all weights are >= 0, otherwise Johnson
+    (one exact Bellman-Ford from all nodes gives potentials, then array Dijkstra on the reduced weights); when a negative
+    cycle exists somewhere, per-source exact Bellman-Ford decides whether it is reachable."""
+
+    def __init__(self, n, arcs):
+        self.n = n
+        self.arcs = list(arcs)
+        self.nonneg = all(w >= 0 for _, _, w in self.arcs)
+        self._pot = False  # not computed
+        self._out = None
+        self._cache = {}
+
+    def _adj(self):
+        if self._out is None:
+            p = self.potentials()
+            out = [[] for _ in range(self.n)]
+            for u, v, w in self.arcs:
+                out[u].append((v, w if p is None else w + p[u] - p[v]))
+            self._out = out
+        return self._out
+
+    def potentials(self):
+        """None for non-negative graphs; a feasible potential if no negative cycle exists; 'cycle' otherwise"""
+        if self._pot is False:
+            if self.nonneg:
+                self._pot = None
+            else:
+                d, neg = bellman_ford_exact(self.n, self.arcs, range(self.n))
+                self._pot = "cycle" if neg else d
+        return self._pot
+
+    def has_negative_cycle(self):
+        return self.potentials() == "cycle"
+
+    def dist(self, s):
+        """(d, neg) like walk_dp"""
+        if s not in self._cache:
+            p = self.potentials()
+            if p == "cycle":
+                self._cache[s] = bellman_ford_exact(self.n, self.arcs, [s])
+            else:
+                r = array_dijkstra(self.n, self._adj(), [s])
+                if p is not None:
+                    r = [None if x is None else x - p[s] + p[v] for v, x in enumerate(r)]
+                self._cache[s] = (r, False)
+        return self._cache[s]
